@@ -149,6 +149,34 @@ def handle (j : Json) : R Json := do
               ("before", ofList (fun p => encRes encSub (getP t p)) probes),
               ("set", setOne strict),
               ("set_strict", setOne true)])
+  | "history" =>
+    -- steps on a growing family of processors: {"do": "set"|"copy"|"copyset", "proc": i, "key"?, value?}
+    let det ← decTree (← fld j "det")
+    let cfg ← decCfg (← fld j "cfg")
+    let probes ← asList (asList asStr) (← fld j "probes")
+    let steps ← asArr (← fld j "steps")
+    let strict := PyxelModel.Generated.C08.setIsStrict
+    let acc : Nat → Val → Except Err Unit := fun _ _ => .ok ()
+    let view (ts : List Tree) : Json :=
+      ofList (fun t => ofList (fun p => encRes encSub (getP t p)) probes) ts
+    let mut procs : List Tree := [processorTree det cfg]
+    let mut out : Array Json := #[]
+    for st in steps do
+      let what ← asStr (← fld st "do")
+      let i ← asNat (← fld st "proc")
+      let some t := procs[i]? | throw s!"history: no processor {i}"
+      let mut err : Json := Json.null
+      if what == "copy" then
+        procs := procs ++ [t]
+      else
+        let key ← asList asStr (← fld st "key")
+        let vin ← decInput st
+        match vin.bind (setP strict acc t key) with
+        | .ok t' =>
+          if what == "set" then procs := procs.set i t' else procs := procs ++ [t']
+        | .error e => err := encErr e
+      out := out.push (obj [("err", err), ("states", view procs)])
+    .ok (obj [("steps", Json.arr out)])
   | "validate" =>
     let det ← decTree (← fld j "det")
     let cfg ← decCfg (← fld j "cfg")
